@@ -61,6 +61,10 @@ def Reader.new (cap : Nat) (src : Script) : Reader :=
   { cap := if cap < 16 then 16 else cap, pre := [], cur := [], err := 0, lastByte := none, total := 0,
     src := src, consumed := [] }
 
+/-- `Reset(r)`: keeps the buffer, forgets everything else, counter back to 0 -/
+def Reader.reset (b : Reader) (src : Script) : Reader :=
+  { cap := b.cap, pre := [], cur := [], err := 0, lastByte := none, total := 0, src := src, consumed := [] }
+
 def Reader.fuel (b : Reader) : Nat := srcMeasure b.src + 2
 
 /-- `fill`: slide, one `rd.Read(buf[w:])`, remember a non-nil error -/
@@ -222,6 +226,10 @@ deriving Repr, DecidableEq
 def Writer.new (cap : Nat) (ws : WScript) : Writer :=
   { cap := if cap = 0 then 4096 else cap, buf := [], err := 0, total := 0, ws := ws, out := [], accepted := [] }
 
+/-- `Reset(w)`: drops unflushed data, clears the error and the counter, switches to the new sink -/
+def Writer.reset (b : Writer) (ws : WScript) : Writer :=
+  { cap := b.cap, buf := [], err := 0, total := 0, ws := ws, out := [], accepted := [] }
+
 def Writer.available (b : Writer) : Nat := b.cap - b.buf.length
 
 /-- `flush` -/
@@ -253,7 +261,7 @@ def Writer.writeLoop (direct : Bool) : Nat → Writer → Bytes → Nat → Writ
 
 /-- `Write(p)` / `WriteString(s)` -/
 def Writer.write (direct : Bool) (b : Writer) (p : Bytes) : Writer × Nat × Nat :=
-  let (b, nn, p) := Writer.writeLoop direct (b.ws.length + 3) b p 0
+  let (b, nn, p) := Writer.writeLoop direct (b.ws.length + p.length + 3) b p 0
   if b.err ≠ 0 then ({ b with total := b.total + nn }, nn, b.err)
   else
     ({ b with buf := b.buf ++ p, accepted := b.accepted ++ p, total := b.total + nn + p.length }, nn + p.length, 0)
